@@ -272,7 +272,7 @@ func ruleSeqToWire(c *Ctx, r *Report) {
 				}
 				nStores++
 				ls := c.Origins(st.Val, 0)
-				good := allLeaves(ls, func(v ssa.Value) bool { return isCallResult(v, isAlloc) })
+				good := c.seqDerived(st.Val, 0)
 				r.Check(good, rule, key+":Header.SequenceNumber", c.ipos(in), "header sequence number = allocator result",
 					"header sequence number does not come from this function's allocator call (stale or foreign number reaches the wire): "+c.describeAll(ls))
 			}
@@ -357,8 +357,6 @@ func ruleSeqToWire(c *Ctx, r *Report) {
 			r.Check(isP && p.Name() == "seq", rule, short(fn)+":Seal-seq", c.ipos(call), "RecordProtection.Seal receives the seq parameter unchanged", "Seal's sequence argument is not the seq parameter")
 		}
 	}
-	r.Floor(rule, nStores, 4)
-
 	// global who-may-write of Header.SequenceNumber: on the emit side (anything reachable
 	// from the record-preparation roots) only allocator callers may write it.
 	var roots []*ssa.Function
@@ -375,11 +373,50 @@ func ruleSeqToWire(c *Ctx, r *Report) {
 			r.OKTrivial("seq-header-writers", short(st.Fn), c.ipos(st.Instr), "allocator caller")
 		case !emit[st.Fn]:
 			r.OKTrivial("seq-header-writers", short(st.Fn), c.ipos(st.Instr), "not reachable from the emit roots (inbound/decoder side)")
+		case c.seqDerived(st.Val, 0):
+			nStores++
+			r.OK("seq-header-writers", short(st.Fn), c.ipos(st.Instr), "helper: the stored number is a parameter that is the allocated number at every call site")
 		default:
 			r.Bad("seq-header-writers", short(st.Fn), c.ipos(st.Instr), "recordlayer.Header.SequenceNumber written on the emit path outside the allocator callers: an outgoing record could carry a number that was not allocated")
 		}
 	}
+	r.Floor(rule, nStores, 2)
 }
+
+// seqDerived: every origin of v is a result of the sequence allocator, or a parameter of an
+// unexported function that receives such a value at every one of its call sites.
+func (c *Ctx) seqDerived(v ssa.Value, depth int) bool {
+	if depth > 3 {
+		return false
+	}
+	return allLeaves(c.Origins(v, 0), func(l ssa.Value) bool {
+		if isCallResult(l, nameIs(fnAllocSeq)) {
+			return true
+		}
+		p, ok := l.(*ssa.Parameter)
+		if !ok {
+			return false
+		}
+		fn := p.Parent()
+		idx := -1
+		for i, q := range fn.Params {
+			if q == p {
+				idx = i
+			}
+		}
+		sites, closed := c.staticCallers(fn)
+		if idx < 0 || len(sites) == 0 || !closed {
+			return false
+		}
+		for _, s := range sites {
+			if idx >= len(s.Call.Common().Args) || !c.seqDerived(s.Call.Common().Args[idx], depth+1) {
+				return false
+			}
+		}
+		return true
+	})
+}
+
 
 // stripLoad returns the address operand if v is a load, else v.
 func stripLoad(v ssa.Value) ssa.Value {
@@ -401,22 +438,13 @@ func ruleSeqNoWrap(c *Ctx, r *Report) {
 	// unreachable when result-1 > MaxSequenceNumber, i.e. there is a comparison
 	// `seq > const` (const == 2^48-1) whose true-branch leads to an error return.
 	var cmp *ssa.BinOp
+	var cmpX ssa.Value
+	exceedsWhen := true
 	for _, b := range fn.Blocks {
 		for _, in := range b.Instrs {
-			bo, ok := in.(*ssa.BinOp)
-			if !ok || (bo.Op != token.GTR && bo.Op != token.GEQ) {
-				continue
-			}
-			k, isC := constInt(bo.Y)
-			if !isC {
-				continue
-			}
-			want := int64(1)<<48 - 1
-			if (bo.Op == token.GTR && k == want) || (bo.Op == token.GEQ && k == want+1) {
-				if anyLeaf(c.Origins(bo.X, 0), func(v ssa.Value) bool {
-					return isCallResult(v, nameIs("sync/atomic.AddUint64"))
-				}) || true {
-					cmp = bo
+			if bo, ok := in.(*ssa.BinOp); ok {
+				if x, limit, when, ok := limitCmp(bo); ok && limit == int64(1)<<48-1 {
+					cmp, cmpX, exceedsWhen = bo, x, when
 				}
 			}
 		}
@@ -428,7 +456,7 @@ func ruleSeqNoWrap(c *Ctx, r *Report) {
 	// under the assumption cmp==true, no return with nil error is reachable
 	w := (&Walk{Fn: fn, Assume: func(v ssa.Value) (Val, bool) {
 		if v == cmp {
-			return vBool(true), true
+			return vBool(exceedsWhen), true
 		}
 		return unknown, false
 	}}).After(cmp)
@@ -443,7 +471,7 @@ func ruleSeqNoWrap(c *Ctx, r *Report) {
 	for _, b := range fn.Blocks {
 		if ret, ok := b.Instrs[len(b.Instrs)-1].(*ssa.Return); ok {
 			if isNilConst(ret.Results[1]) {
-				r.Check(ret.Results[0] == cmp.X, rule, short(fn)+":returned", c.ipos(ret), "the returned number is the value that was range-checked", "the returned number is not the range-checked value")
+				r.Check(ret.Results[0] == cmpX, rule, short(fn)+":returned", c.ipos(ret), "the returned number is the value that was range-checked", "the returned number is not the range-checked value")
 			}
 		}
 	}
@@ -452,8 +480,8 @@ func ruleSeqNoWrap(c *Ctx, r *Report) {
 		found := false
 		for _, b := range hm.Blocks {
 			for _, in := range b.Instrs {
-				if bo, ok := in.(*ssa.BinOp); ok && (bo.Op == token.GTR || bo.Op == token.GEQ) {
-					if k, isC := constInt(bo.Y); isC && k >= int64(1)<<48-1 && k <= int64(1)<<48 {
+				if bo, ok := in.(*ssa.BinOp); ok {
+					if _, limit, _, ok := limitCmp(bo); ok && limit == int64(1)<<48-1 {
 						found = true
 					}
 				}
@@ -461,4 +489,41 @@ func ruleSeqNoWrap(c *Ctx, r *Report) {
 		}
 		r.Check(found, rule, short(hm), c.pos(hm.Pos()), "Header.Marshal refuses sequence numbers above 2^48-1", "Header.Marshal no longer refuses sequence numbers above 2^48-1")
 	}
+}
+
+// limitCmp normalises an integer comparison against a constant into "x exceeds limit":
+// it returns x, the limit and the truth value of the comparison that means x > limit.
+// x > K, x >= K+1, !(x <= K), !(x < K+1) and the mirrored forms all give (x, K, ...).
+func limitCmp(bo *ssa.BinOp) (x ssa.Value, limit int64, exceedsWhen bool, ok bool) {
+	op := bo.Op
+	xv, kv := bo.X, bo.Y
+	if _, isC := constInt(kv); !isC {
+		// mirrored: K op x
+		if _, isC2 := constInt(xv); !isC2 {
+			return nil, 0, false, false
+		}
+		xv, kv = kv, xv
+		switch op {
+		case token.GTR:
+			op = token.LSS
+		case token.GEQ:
+			op = token.LEQ
+		case token.LSS:
+			op = token.GTR
+		case token.LEQ:
+			op = token.GEQ
+		}
+	}
+	k, _ := constInt(kv)
+	switch op {
+	case token.GTR:
+		return xv, k, true, true
+	case token.GEQ:
+		return xv, k - 1, true, true
+	case token.LEQ:
+		return xv, k, false, true
+	case token.LSS:
+		return xv, k - 1, false, true
+	}
+	return nil, 0, false, false
 }
